@@ -134,11 +134,16 @@ impl Matcher {
                     }
                 }
                 Some(len) => {
+                    // the needle starts with `len` bytes that are not letters, so these
+                    // can be searched for (case sensitively) with memmem
                     (max_score, max_pos) = self.substring_match_ascii_with_prefilter(
                         haystack,
                         needle,
-                        1,
-                        memmem::find_iter(&haystack[..haystack.len() - needle.len() + len], needle),
+                        len,
+                        memmem::find_iter(
+                            &haystack[..haystack.len() - needle.len() + len],
+                            &needle[..len],
+                        ),
                     );
                     if max_score == 0 {
                         return None;
